@@ -3,6 +3,7 @@ package nc
 import (
 	"go/types"
 	"regexp"
+	"strconv"
 	"strings"
 
 	"golang.org/x/tools/go/ssa"
@@ -50,6 +51,17 @@ func (c *Ctx) ruleHashToCurveCensus(rule string) {
 		e := o.Of(c.P.Describe(s).Args[0])
 		if e.K == "append" && len(e.Args) == 2 && e.Args[0].String() == "#"+ds && e.Args[1].String() == msg {
 			first = s
+		}
+	}
+	// the same question asked of the bytes themselves (however they were assembled)
+	be := &bytesEval{p: c.P, fn: f}
+	dsBytes, _ := strconv.Unquote(ds)
+	if first == nil {
+		for _, s := range sums {
+			segs := be.bytesAt(c.P.Describe(s).Args[0], s)
+			if len(segs) == 2 && segs[0].K == "const" && segs[0].S == dsBytes && segs[1].K == "param" && segs[1].V == ssa.Value(f.Params[0]) {
+				first = s
+			}
 		}
 	}
 	R.Check(rule, fk, "first digest = sha256(domain separator || whole message)", c.P.Pos(f.Pos()), first != nil,
@@ -123,6 +135,20 @@ func (c *Ctx) ruleHashToCurveCensus(rule string) {
 			okLE, appended = true, p.Value()
 		}
 	}
+	// byte view: some later sha256 call hashes exactly digest(first) || le32(counter)
+	var secondBytes ssa.CallInstruction
+	if first != nil {
+		for _, s := range sums {
+			if s == first {
+				continue
+			}
+			segs := be.bytesAt(c.P.Describe(s).Args[0], s)
+			if len(segs) == 2 && segs[0].K == "digest" && segs[0].Call == first && segs[1].K == "le32" && isCounter(segs[1].V) {
+				secondBytes = s
+				okLE = true
+			}
+		}
+	}
 	R.Check(rule, fk, "counter encoded little-endian in 4 bytes", c.P.Pos(f.Pos()), okLE, "the counter is appended as a 4-byte little-endian value", "no binary.LittleEndian.PutUint32 into a 4-byte buffer / AppendUint32 of the loop counter")
 	for _, s := range sums {
 		if s == first {
@@ -139,12 +165,23 @@ func (c *Ctx) ruleHashToCurveCensus(rule string) {
 			}
 		}
 	}
+	if second == nil {
+		second = secondBytes
+	}
 	R.Check(rule, fk, "second digest = sha256(first digest || counter)", c.P.Pos(f.Pos()), second != nil, "each attempt hashes the first digest followed by the counter bytes", "")
 	okPrefix := false
 	for _, p := range c.callsNamed(f, "secp256k1.ParsePubKey") {
 		e := o.Of(c.P.Describe(p).Args[0])
 		if e.K == "append" && len(e.Args) == 2 && strings.Contains(e.Args[0].String(), "[]=#2") && second != nil && e.Args[1].K == "call" && e.Args[1].Call == second {
 			okPrefix = true
+		}
+	}
+	if !okPrefix && second != nil {
+		for _, p := range c.callsNamed(f, "secp256k1.ParsePubKey") {
+			segs := be.bytesAt(c.P.Describe(p).Args[0], p)
+			if len(segs) == 2 && segs[0].K == "const" && segs[0].S == "\x02" && segs[1].K == "digest" && segs[1].Call == second {
+				okPrefix = true
+			}
 		}
 	}
 	R.Check(rule, fk, "candidate = 0x02 || second digest, parsed as a point", c.P.Pos(f.Pos()), okPrefix, "the candidate point is the compressed encoding 02 || digest", "")
